@@ -110,6 +110,23 @@ def _check_case(durs, cols, off, res, light_too=True):
                 res.violation(f"C17|n={len(durs)}|not-periodic", f"{case0} t={t}", dict(case0, t=t))
         except Exception:
             pass
+    # the statement quantifies over every cycle: the 'active' flag (constructor argument and public setter, on the cycle and on the light)
+    # is not part of the cycle definition and must not change the reported state
+    try:
+        inactive = TrafficLightCycle([TrafficLightCycleElement(c, d) for c, d in zip(cols, durs)], time_offset=off, active=False)
+        toggled = mk(); toggled.get_state_at_time_step(off); toggled.active = False
+        back_on = mk(); back_on.active = False; back_on.get_state_at_time_step(off); back_on.active = True
+        light_off = TrafficLight(8, np.array([0.0, 0.0]), mk(), active=False)
+        for t in ts:
+            exp = expanded[(t - off) % T]
+            for lab, obj in (("constructed-inactive", inactive), ("set-inactive", toggled), ("set-active-again", back_on), ("inactive-light", light_off)):
+                res.evals += 1; res.transitions += 1
+                got = obj.get_state_at_time_step(t)
+                if got != exp:
+                    res.violation(f"C17|n={len(durs)}|active-flag:{lab}|wrong-state", f"{case0} t={t}: got {got} expected {exp}", dict(case0, t=t))
+                    break
+    except Exception as e:
+        res.violation(f"C17|n={len(durs)}|active-flag|raises:{type(e).__name__}", repr(e), dict(case0))
     # history part of "TrafficLight agrees with its cycle": the light was queried at every t above; now its cycle is
     # replaced through the public setter (reversed colours, other offset) and every t is queried again
     cols2, durs2, off2 = list(cols)[::-1], list(durs)[::-1], off + 1
